@@ -174,6 +174,15 @@ def skeleton(x):
     return type(x).__name__
 
 
+class NotJson(ValueError):
+    pass
+
+
+def _no_constant(name):
+    # Python's json accepts NaN / Infinity / -Infinity; RFC 8259 does not
+    raise NotJson(name)
+
+
 def check_json(data):
     """-> (problem or None, parsed or None)"""
     try:
@@ -183,7 +192,9 @@ def check_json(data):
     if not text.endswith('\n') or '\n' in text[:-1] or '\r' in text:
         return 'the JSON event is not exactly one line', None
     try:
-        ev = json.loads(text, object_pairs_hook=_nodup)
+        ev = json.loads(text, object_pairs_hook=_nodup, parse_constant=_no_constant)
+    except NotJson as e:
+        return f'the JSON event holds the bare constant {e}, which is not JSON (RFC 8259 section 6)', None
     except Dup as e:
         return f'duplicate key "{e}" inside one JSON object', None
     except ValueError as e:
@@ -436,6 +447,24 @@ def events_from_wire(tier, seed):
         one(2, W.update_body(b'', base + W.unknown(40, tops[a] * 2), bytes([24, 10, 0, 0])), None, f'Prefix-SID with [{a}] twice')
     for a, b in itertools.combinations(names[:8], 2):
         one(2, W.update_body(b'', base + W.unknown(40, tops[a] + tops[b]), bytes([24, 10, 0, 0])), None, f'Prefix-SID with [{a}] and [{b}]')
+    # IEEE floats the peer chooses: NaN and the infinities must still render, and as JSON
+    for bits, fname in ((0x7FC00000, 'NaN'), (0x7F800000, '+inf'), (0xFF800000, '-inf'), (0x42C80000, '100.0')):
+        f4 = bits.to_bytes(4, 'big')
+        for sub, cname in ((0x06, 'traffic-rate'), (0x0C, 'traffic-rate-packets')):
+            one(2, W.update_body(b'', base + W.unknown(16, bytes([0x80, sub, 0, 0]) + f4), bytes([24, 10, 0, 0])), None, f'{cname} extended community with rate {fname}')
+        for tlv_code, n in ((1089, 1), (1090, 1), (1091, 8)):
+            one(2, W.update_body(b'', base + W.unknown(29, _st.pack('!HH', tlv_code, 4 * n) + f4 * n, transitive=False), bytes([24, 10, 0, 0])), None, f'BGP-LS TLV {tlv_code} with bandwidth {fname}')
+    for n in (1, 13, 14, 200, 1800):
+        blob = base + bytes([0x90, 29]) + _st.pack('!H', 4 + n) + _st.pack('!HH', 1027, n) + b'\xff' * n
+        one(2, W.update_body(b'', blob, bytes([24, 10, 0, 0])), None, f'BGP-LS IS-IS area TLV of {n} octets')
+    # tunnel encapsulation (23): the same tunnel type twice, the same SR policy sub-TLV twice
+    pref = bytes([12, 6, 0, 0]) + (100).to_bytes(4, 'big')
+    prio = bytes([15, 2, 5, 0])
+    for inner, what in ((pref, 'preference'), (pref + pref, 'preference twice'), (pref + prio, 'preference and priority'), (prio + prio, 'priority twice')):
+        t15 = _st.pack('!HH', 15, len(inner)) + inner
+        one(2, W.update_body(b'', base + W.unknown(23, t15), bytes([24, 10, 0, 0])), None, f'tunnel encapsulation, SR policy with {what}')
+        one(2, W.update_body(b'', base + W.unknown(23, t15 + t15), bytes([24, 10, 0, 0])), None, f'tunnel encapsulation, SR policy tunnel twice ({what})')
+    one(2, W.update_body(b'', base + W.unknown(23, _st.pack('!HH', 99, 2) + b'ab' + _st.pack('!HH', 99, 2) + b'cd'), bytes([24, 10, 0, 0])), None, 'tunnel encapsulation, unknown tunnel type twice')
     for asn2, asn4, what in ((23456, 70000, 'AS_TRANS + 4-byte'), (65001, 70000, 'real 2-byte AS + 4-byte'), (23456, None, 'AS_TRANS alone'), (None, 70000, 'AS4_AGGREGATOR alone')):
         blob = base
         if asn2 is not None:
